@@ -210,7 +210,7 @@ def r10_7(ctx):
     differently after an absence step than the absence-free run does at the same amount of work done."""
     ctx.begin("R10.7", "the forward step reads no absolute-time attribute (due_time, init_datetime)", floor=20)
     f, loop = sim_loop(ctx)
-    reg = list(ctx.eff.reachable_from_stmts(f, loop.body, precise=True))
+    reg = list(ctx.eff.reachable_from_stmts(f, [loop], precise=True))
     for g in reg:
         ctx.instance(g.qualname)
         for ef in ctx.eff.of(g):
